@@ -86,6 +86,16 @@ func setupRe(it *Item) *reCtx {
 
 // haystack builds Pre + L symbolic bytes + Post under the item's alphabet.
 func haystack(it *Item, set *[256]bool) []byte {
+	if one, ok := singleton(it, set); ok {
+		// a one-symbol alphabet admits exactly one haystack of each length: build it concretely
+		h := make([]byte, 0, len(it.Pre)+it.L+len(it.Post))
+		h = append(h, it.Pre...)
+		for i := 0; i < it.L; i++ {
+			h = append(h, one)
+		}
+		h = append(h, it.Post...)
+		return h
+	}
 	sym := verif.Bytes("h", it.L)
 	switch {
 	case it.Alpha == "ascii":
@@ -107,6 +117,21 @@ func haystack(it *Item, set *[256]bool) []byte {
 	h = append(h, sym...)
 	h = append(h, it.Post...)
 	return h
+}
+
+// singleton reports the only byte of a one-symbol set:/hex: alphabet.
+func singleton(it *Item, set *[256]bool) (byte, bool) {
+	if len(it.Alpha) <= 4 || (it.Alpha[:4] != "set:" && it.Alpha[:4] != "hex:") {
+		return 0, false
+	}
+	n, one := 0, byte(0)
+	for b := 0; b < 256; b++ {
+		if set[b] {
+			n++
+			one = byte(b)
+		}
+	}
+	return one, n == 1
 }
 
 func eqInts(a, b []int) bool {
